@@ -31,6 +31,23 @@ type sworld struct {
 	names, mimes, tags, titles, nodeTypes []string
 	dates                                 []time.Time
 	allRefs                               []blob.Ref
+	// atDates: instants worth using as PermanodeConstraint.At: right at / after a del-attribute of a
+	// value that had been added more than once, with a newer claim on the same permanode after it
+	atDates []time.Time
+	atCases []atCase
+	// distinctCount: evaluate numValue on the distinct values (set while judging the corpus-less mode)
+	distinctCount bool
+	// chunkOf: file schema blob -> its single content chunk (a file is indexed only once both arrived)
+	chunkOf map[blob.Ref]blob.Ref
+	features map[string]int // what the generator actually produced (evidence)
+}
+
+// atCase: permanode pn had `value` more than once under attr, then a del-attribute of that value
+// dated `del`, then a newer claim.
+type atCase struct {
+	pn          blob.Ref
+	attr, value string
+	del         time.Time
 }
 
 type sfile struct {
@@ -68,7 +85,7 @@ func (w *sworld) add(b sto.Blob, typ string) {
 // genSearchWorld builds a world of n permanodes plus files, directories and plain blobs.
 // tiedTimes draws claim dates from a small set (massive ties) for the paging check.
 func genSearchWorld(rng *rand.Rand, label string, nPN int, tiedTimes bool, exotic bool) *sworld {
-	w := &sworld{typ: map[blob.Ref]string{}, size: map[blob.Ref]int{}, del: map[blob.Ref]bool{}, files: map[blob.Ref]*sfile{}, dirs: map[blob.Ref]*sdir{}, parent: map[blob.Ref][]blob.Ref{}}
+	w := &sworld{typ: map[blob.Ref]string{}, size: map[blob.Ref]int{}, del: map[blob.Ref]bool{}, files: map[blob.Ref]*sfile{}, dirs: map[blob.Ref]*sdir{}, parent: map[blob.Ref][]blob.Ref{}, chunkOf: map[blob.Ref]blob.Ref{}, features: map[string]int{}}
 	w.owner = hw.NewSigner(1)
 	w.w = &hw.World{Kind: map[blob.Ref]string{}, Deps: map[blob.Ref][]blob.Ref{}, Signers: []*hw.Signer{w.owner}}
 	w.add(w.owner.Pub, "")
@@ -96,9 +113,24 @@ func genSearchWorld(rng *rand.Rand, label string, nPN int, tiedTimes bool, exoti
 		w.add(chunk, "")
 		w.add(fb, "file")
 		w.files[fb.Ref] = &sfile{name: name, mime: mime, size: len(content), whole: chunk.Ref, mtime: mt}
+		w.chunkOf[fb.Ref] = chunk.Ref
 		fileRefs = append(fileRefs, fb.Ref)
 		w.names = append(w.names, name)
 		w.mimes = append(w.mimes, mime)
+		// the same content under another name / time: one wholeRef, two files
+		if i == 0 && rng.Intn(2) == 0 {
+			name2 := namePool[rng.Intn(len(namePool))]
+			mt2 := time.Date(1986+rng.Intn(20), time.Month(1+rng.Intn(12)), 1+rng.Intn(27), 1, 2, 3, 0, time.UTC)
+			fb2, _ := hw.FileOf(name2, content, mt2)
+			if _, dup := w.typ[fb2.Ref]; !dup {
+				w.add(fb2, "file")
+				w.files[fb2.Ref] = &sfile{name: name2, mime: mime, size: len(content), whole: chunk.Ref, mtime: mt2}
+				w.chunkOf[fb2.Ref] = chunk.Ref
+				fileRefs = append(fileRefs, fb2.Ref)
+				w.names = append(w.names, name2)
+				w.features["shared-wholeref"]++
+			}
+		}
 	}
 	// directories: d0 has some files, d1 has d0 and files, d2 (sometimes) has d1
 	nDirs := 2 + rng.Intn(2)
@@ -169,18 +201,19 @@ func genSearchWorld(rng *rand.Rand, label string, nPN int, tiedTimes bool, exoti
 		}
 		return d
 	}
-	claim := func(kind string, pn blob.Ref, attr, val string) {
+	claim := func(kind string, pn blob.Ref, attr, val string) time.Time {
 		curPN = pn.String()
 		d := nextDate()
 		cb := w.owner.Claim(kind, pn, attr, val, d)
 		if _, dup := w.typ[cb.Ref]; dup {
-			return
+			return d
 		}
 		w.add(cb, "claim")
 		ci := hw.ClaimInfo{Ref: cb.Ref, Kind: kind, PN: pn, Attr: attr, Value: val, Date: d, Signer: 1}
 		w.claims = append(w.claims, ci)
 		w.w.Claims = append(w.w.Claims, ci)
 		w.dates = append(w.dates, d)
+		return d
 	}
 	tagPool := []string{"a", "b", "Foo", "foo bar", "42", "7", "-3", "x|y"}
 	w.tags = tagPool
@@ -222,7 +255,10 @@ func genSearchWorld(rng *rand.Rand, label string, nPN int, tiedTimes bool, exoti
 					claim(hw.Set, pn, "count", fmt.Sprint(rng.Intn(50)))
 				}
 			case k == 8 || k == 9:
-				if rng.Intn(4) == 0 {
+				if k4 := rng.Intn(8); k4 == 0 {
+					claim(hw.Set, pn, "camliContent", dirRefs[rng.Intn(len(dirRefs))].String())
+					w.features["content-is-directory"]++
+				} else if k4 < 3 {
 					claim(hw.Set, pn, "camliContent", plain[rng.Intn(len(plain))].String())
 				} else {
 					claim(hw.Set, pn, "camliContent", fileRefs[rng.Intn(len(fileRefs))].String())
@@ -263,6 +299,58 @@ func genSearchWorld(rng *rand.Rand, label string, nPN int, tiedTimes bool, exoti
 			claim(hw.Del, pn, "camliMember", c.String())
 			claim(hw.Set, pn, "camliPath:y", c.String())
 		}
+	}
+	// repeated values: one value added more than once, then removed by a del-attribute naming it,
+	// then a newer claim, so that a query `at` the del (or shortly after) is answered from the
+	// claims up to that instant and not from the present-time attribute cache
+	for i, pn := range w.pns {
+		if i%7 == 6 || len(w.pns) < 6 {
+			continue
+		}
+		switch i % 8 {
+		case 2:
+			x, y := tagPool[rng.Intn(len(tagPool))], tagPool[rng.Intn(len(tagPool))]
+			claim(hw.Add, pn, "tag", x)
+			claim(hw.Add, pn, "tag", y)
+			claim(hw.Add, pn, "tag", x)
+			if rng.Intn(3) == 0 {
+				claim(hw.Add, pn, "tag", x)
+			}
+			d := claim(hw.Del, pn, "tag", x)
+			w.atDates = append(w.atDates, d, d.Add(time.Second))
+			w.atCases = append(w.atCases, atCase{pn, "tag", x, d})
+			claim(hw.Set, pn, "title", "Title 9")
+			w.titles = append(w.titles, "Title 9")
+			w.features["repeated-value-then-del/tag"]++
+		case 5:
+			m, m2 := w.pns[(i+3)%len(w.pns)], w.pns[(i+4)%len(w.pns)]
+			claim(hw.Add, pn, "camliMember", m.String())
+			claim(hw.Add, pn, "camliMember", m2.String())
+			claim(hw.Add, pn, "camliMember", m.String())
+			d := claim(hw.Del, pn, "camliMember", m.String())
+			w.atDates = append(w.atDates, d, d.Add(time.Second))
+			w.atCases = append(w.atCases, atCase{pn, "camliMember", m.String(), d})
+			claim(hw.Add, pn, "tag", tagPool[rng.Intn(len(tagPool))])
+			w.features["repeated-value-then-del/camliMember"]++
+		}
+	}
+	// sets with several members whose members carry several tags (nested attribute tests on each
+	// of several values)
+	for i, pn := range w.pns {
+		if i%7 == 6 || i%6 != 0 || len(w.pns) < 6 {
+			continue
+		}
+		k := 2 + rng.Intn(3)
+		for j := 0; j < k; j++ {
+			mi := rng.Intn(len(w.pns))
+			if mi%7 != 6 && rng.Intn(5) < 3 {
+				for t := 0; t < 2+rng.Intn(2); t++ {
+					claim(hw.Add, w.pns[mi], "tag", tagPool[rng.Intn(len(tagPool))])
+				}
+			}
+			claim(hw.Add, pn, "camliMember", w.pns[mi].String())
+		}
+		w.features["multi-member-set"]++
 	}
 	// deleted permanodes (delete claims on permanodes only; claim deletions are C07's subject)
 	for i, pn := range w.pns {
@@ -330,4 +418,65 @@ func (w *sworld) anyTime(pn blob.Ref) (time.Time, bool) {
 		return ccTime, true
 	}
 	return w.modtime(pn)
+}
+
+// restrict returns the world as an index sees it after exactly the blobs in `have` have arrived:
+// the ground truth of a partially delivered world.  A file counts as indexed once its schema blob
+// and its content chunk are both there, a directory once its static set is, a claim once the
+// signer's key is (perkeep postpones indexing a blob until what it needs to read has arrived).
+// Generation pools are shared with the full world.
+func (w *sworld) restrict(have map[blob.Ref]bool) *sworld {
+	p := &sworld{typ: map[blob.Ref]string{}, size: map[blob.Ref]int{}, del: map[blob.Ref]bool{}, files: map[blob.Ref]*sfile{}, dirs: map[blob.Ref]*sdir{}, parent: map[blob.Ref][]blob.Ref{}, chunkOf: w.chunkOf, features: w.features}
+	p.owner = w.owner
+	p.names, p.mimes, p.tags, p.titles, p.nodeTypes, p.dates, p.atDates, p.atCases = w.names, w.mimes, w.tags, w.titles, w.nodeTypes, w.dates, w.atDates, w.atCases
+	p.w = &hw.World{Kind: w.w.Kind, Deps: w.w.Deps, Signers: w.w.Signers}
+	keyThere := have[w.owner.PubRef]
+	for _, b := range w.blobs {
+		if !have[b.Ref] {
+			continue
+		}
+		switch w.typ[b.Ref] {
+		case "file":
+			if ch, ok := w.chunkOf[b.Ref]; ok && !have[ch] {
+				continue
+			}
+		case "claim":
+			if !keyThere {
+				continue
+			}
+		}
+		p.add(b, w.typ[b.Ref])
+	}
+	for _, pn := range w.pns {
+		if _, ok := p.typ[pn]; ok {
+			p.pns = append(p.pns, pn)
+		}
+	}
+	for _, c := range w.claims {
+		if _, ok := p.typ[c.Ref]; ok {
+			p.claims = append(p.claims, c)
+		}
+	}
+	for _, c := range w.w.Claims {
+		if _, ok := p.typ[c.Ref]; ok {
+			p.w.Claims = append(p.w.Claims, c)
+			if c.Kind == "delete" {
+				p.del[c.Target] = true
+			}
+		}
+	}
+	for ref, f := range w.files {
+		if _, ok := p.typ[ref]; ok {
+			p.files[ref] = f
+		}
+	}
+	for _, b := range p.blobs { // deterministic order for parent lists
+		if d := w.dirs[b.Ref]; d != nil {
+			p.dirs[b.Ref] = d
+			for _, k := range d.children {
+				p.parent[k] = append(p.parent[k], b.Ref)
+			}
+		}
+	}
+	return p
 }
